@@ -211,7 +211,16 @@ def main(ctx: Ctx) -> int:
             f.write_text(text)
             flist.append(str(f)); fmts.append(fmt)
         try:
-            net = Network(filelist=flist, fileformats=fmts, rate_modifier=dict(case["mods"]))
+            if ci % 3 == 2 and case["mods"]:
+                # the modifiers arrive AFTER construction, by read-modify-write through the property (m = net.rate_modifier; m[k] = v; net.rate_modifier = m),
+                # one at a time
+                net = Network(filelist=flist, fileformats=fmts)
+                for mk_, mv_ in dict(case["mods"]).items():
+                    m_ = net.rate_modifier
+                    m_[mk_] = mv_
+                    net.rate_modifier = m_
+            else:
+                net = Network(filelist=flist, fileformats=fmts, rate_modifier=dict(case["mods"]))
         except Exception as e:   # noqa
             ctx.violation(f"{pid}|Read|{type(e).__name__}", f"reading encoded files raised {type(e).__name__}: {e}", {"files": case["files"]})
             continue
